@@ -62,3 +62,33 @@ Proof.
     + exists "Z", 0%Z, [NChr " "], (nrhs ex_sq2b). repeat split; vm_compute; reflexivity.
   - split; [vm_compute; reflexivity|]. eexists. split; [vm_compute; reflexivity|]. vm_compute. split; reflexivity.
 Qed.
+
+(* ---- any runs of blanks, blanks after "(" and before ")", a continuation line: dq_ok_ws and sep_ok only ---- *)
+Require Import GraphTokWf GraphSrcGraphWs.
+Definition ex_wq1 : neq := mkNeq [NTerm "Y" (IInt 0%Z); NChr " "; NChr " "]
+  [NChr " "; NChr " "; NTerm "X" (IInt (-1)%Z); NChr " "; NChr " "; NChr "+"; NChr " "; NFunc "max"; NChr "("; NChr " "; NTerm "Z" (IInt 0%Z); NChr " "; NChr ",";
+   NChr nl; NChr " "; NChr " "; NTerm "a" (IInt 0%Z); NChr " "; NChr ")"].
+Definition ex_wq2 : neq := mkNeq [NTerm "Z" (IInt 0%Z); NChr " "; NChr " "; NChr " "]
+  [NChr " "; NTerm "Y" (IInt 0%Z); NChr " "; NChr " "; NChr "<"; NChr " "; NChr " "; NFunc "max"; NChr "("; NChr " "; NTerm "X" (IInt 1%Z); NChr " "; NChr ")"; NChr " "; NKw "if"; NChr " "; NChr " "; NTerm "Y" (IInt 0%Z);
+   NChr " "; NKw "else"; NChr " "; NChr "1"].
+Definition ex_ws_script : string := denorm_text ex_src_lay ex_wq1 ++ nl_s ++ denorm_text ex_src_lay ex_wq2.
+Example ex_ws_script_hyps :
+  ex_ws_script = "Y  =  X[ -1 ]  + max( Z ," ++ nl_s ++ "  { a} )" ++ nl_s ++ "Z   = Y  <  max( X[ +1 ] ) if  Y else 1" /\
+  dq_ok ex_src_lay ex_wq1 = false /\ dq_ok ex_src_lay ex_wq2 = false /\
+  Forall (stmt_src_ws ex_src_lay) [ex_wq1; ex_wq2] /\
+  split_M ex_ws_script = (map (denorm_text ex_src_lay) [ex_wq1; ex_wq2], None) /\
+  neq_text (nrm_q ex_wq1) = "Y[t] = X[t-1] + max(Z[t] , a[t])" /\
+  neq_text (nrm_q ex_wq2) = "Z[t] = Y[t] < max(X[t+1]) if Y[t] else 1" /\
+  exists syms, parse_model_nocheck ex_ws_script = POk syms /\
+    match symbols_to_graph_M syms with
+    | Ret g => in_edges g "Y[t]" = ["X[t-1]"; "max"; "Z[t]"; "a[t]"] /\ in_edges g "Z[t]" = ["Y[t]"; "max"; "X[t+1]"; "if"; "else"]
+    | Raise _ => False
+    end.
+Proof.
+  split; [vm_compute; reflexivity|]. split; [vm_compute; reflexivity|]. split; [vm_compute; reflexivity|]. split.
+  - constructor; [|constructor; [|constructor]].
+    + exists "Y", 0%Z, [NChr " "; NChr " "], (nrhs ex_wq1). repeat split; vm_compute; reflexivity.
+    + exists "Z", 0%Z, [NChr " "; NChr " "; NChr " "], (nrhs ex_wq2). repeat split; vm_compute; reflexivity.
+  - split; [vm_compute; reflexivity|]. split; [vm_compute; reflexivity|]. split; [vm_compute; reflexivity|].
+    eexists. split; [vm_compute; reflexivity|]. vm_compute. split; reflexivity.
+Qed.
